@@ -567,6 +567,17 @@ def main(prop, fn):
         print(f"{prop}: MACHINERY TIMEOUT (exit 2): {e}", file=sys.stderr)
         _fallback_evidence(ctx, str(e))
         code = 2
+    except SystemExit:
+        raise
+    except BaseException as e:  # disk full, a harness bug, KeyboardInterrupt ...: never a verdict
+        import traceback
+        traceback.print_exc()
+        print(f"{prop}: MACHINERY FAILURE (exit 2, not a verdict): {type(e).__name__}: {e}", file=sys.stderr)
+        try:
+            _fallback_evidence(ctx, f"{type(e).__name__}: {e}")
+        except Exception:
+            pass
+        code = 2
     finally:
         ctx.cleanup()
     sys.exit(code)
